@@ -103,6 +103,10 @@ def check(chk):
     _scores_identity(chk)
     _norms(chk)
     _stage_inverse(chk)
+    # the fitted scaling arrays survive a serialisation round trip (compute() and load() rebuild the model from the
+    # serialised tree): shared with C13's naming rule
+    from . import c13 as _c13
+    _c13._named(chk, rule="MIRROR.state.named")
     chk.floor("MIRROR.stage_inverse", 4)
     chk.floor("MIRROR.affine", 6)
     chk.floor("MIRROR.stages", 40)
@@ -329,12 +333,22 @@ def _norms(chk):
             if isinstance(p, ast.keyword) or isinstance(p, ast.Call):
                 forwarded = True
         applies = False
+        applied_keys: set[str] = set()
         for b in [x for x in walk_no_nested(fn.node) if isinstance(x, (ast.BinOp, ast.AugAssign)) and isinstance(x.op, (ast.Mult, ast.Div))]:
             other = b.right if isinstance(b, ast.BinOp) else b.value
-            if any((p.container_key() or ("", ""))[1] in ("norms", "norm1", "norm2") for p in ff.paths(other, spine_only=True, follow=True)):
+            ks = {(p.container_key() or ("", ""))[1] for p in ff.paths(other, spine_only=True, follow=True)} & {"norms", "norm1", "norm2"}
+            if ks:
                 from .common import atomic_conditions
                 if any(isinstance(t, ast.Name) and t.id == "normalized" for t, _ in atomic_conditions(ff, b)):
                     applies = True
+                    applied_keys |= ks
+        # a function that serves both fields applies the switch to both
+        both = {"norm1", "norm2"}
+        reads = {const_str(n.slice) for n in walk_no_nested(fn.node) if isinstance(n, ast.Subscript) and const_str(n.slice)}
+        serves_both = any(k.endswith("1") for k in reads) and any(k.endswith("2") for k in reads)
+        if applied_keys & both and serves_both:
+            chk.check(both <= applied_keys, "MIRROR.norms.switch.fields", fn, fn.node, construct=f"{fn.qualname}: the normalized switch acts on both fields",
+                      why=f"the 'normalized' switch is applied to {sorted(applied_keys & both)} only: for the other field both settings return the same numbers")
         # a helper that receives `normalized`-dependent values (norm=None if normalized else ...) counts as forwarding
         chk.check(forwarded or applies, "MIRROR.norms.switch", fn, fn.node, construct=f"{fn.qualname}: the normalized switch is applied or handed on",
                   why="the 'normalized' parameter neither guards a multiplication / division by the per-mode norms nor is passed on: "
